@@ -1431,7 +1431,7 @@ def _stream_alphabet(ctx, workers):
 
 def _stream_pairs(ctx, workers, git, n=None, stream="pairs"):
     rng = ctx.rng
-    n = ctx.budget(1200) if n is None else n
+    n = ctx.budget(1200, mult=8) if n is None else n
     cases = []
     fixed = [
         ("fixed:empty", [], []),
